@@ -91,49 +91,44 @@ impl LineIndex {
         }
     }
 
+    /// Offset of the last position that still belongs to `line`: just before the final byte of
+    /// the line terminator, or the end of the text for the last line.
+    fn get_line_end_offset(&self, line: usize, source_text: &str) -> usize {
+        let end = match self.line_offsets.get(line + 1) {
+            Some(next) => (*next as usize).saturating_sub(1),
+            None => source_text.len(),
+        };
+        end.min(source_text.len())
+    }
+
     // get offset by line and col
     pub fn get_offset(&self, line: usize, col: usize, source_text: &str) -> Option<TextSize> {
         let start_offset = self.get_line_offset(line)?;
-        if col == 0 {
-            return Some(start_offset);
-        }
-
-        if self.is_line_only_ascii_index(line) {
-            let col = col.min(source_text.len());
-            Some(start_offset + TextSize::from(col as u32))
-        } else {
-            let mut offset = 0;
-            let mut col = col;
-            for c in source_text[usize::from(start_offset)..].chars() {
-                if col == 0 {
-                    break;
-                }
-
-                offset += c.len_utf8();
-                col -= 1;
-            }
-            Some(start_offset + TextSize::from(offset as u32))
-        }
+        let col_offset = self.get_col_offset_at_line(line, col, source_text)?;
+        Some(start_offset + col_offset)
     }
 
+    /// Byte offset of column `col` relative to the start of `line`. A column past the end of the
+    /// line is clamped to the end of that line, as the LSP specification requires.
     pub fn get_col_offset_at_line(
         &self,
         line: usize,
         col: usize,
         source_text: &str,
     ) -> Option<TextSize> {
-        let start_offset = self.get_line_offset(line)?;
+        let start_offset = usize::from(self.get_line_offset(line)?);
         if col == 0 {
             return Some(0.into());
         }
 
+        let end_offset = self.get_line_end_offset(line, source_text).max(start_offset);
         if self.is_line_only_ascii_index(line) {
-            let col = col.min(source_text.len());
+            let col = col.min(end_offset - start_offset);
             Some(TextSize::from(col as u32))
         } else {
             let mut offset = 0;
             let mut col = col;
-            for c in source_text[usize::from(start_offset)..].chars() {
+            for c in source_text[start_offset..end_offset].chars() {
                 if col == 0 {
                     break;
                 }
